@@ -26,6 +26,9 @@ DOUBLES = [0.0, -0.0, 1.0, -1.5, float('inf'), float('-inf'), float('nan'), 5e-3
            1.7976931348623157e308, -1.7976931348623157e308, 1e-310, math.pi, 2.0**53, 0.1]
 
 STRINGS = ['', 'a', 'hello', 'é', '€', '\U0001F600', 'aé€\U0001F600z', '\r\n', 'x\r\ny', ' ', 'l', 'B',
+           # characters codecs and "cleaning" code like to eat or rewrite: a leading U+FEFF (byte-order mark), U+FFFE,
+           # non-characters, combining marks and strings that normalisation would change, surrounding white space
+           '\ufeffhello', '\ufeff', 'x\ufeff', '\ufffe', 'e\u0301', '\u00e9', ' padded ', '\tx\n', '\u2028', '\x7f',
            'tab\there', "it's", 'a,b=c', '\x01\x7f', 'ࠀ￿', 'a' * 255, 'b' * 256]
 
 PATHS = ['/', '/a', '/a/b', '/a/bc', '/org/freedesktop/DBus', '/_/0/A_9', '/a/b/c/d/e/f/g/h']
